@@ -85,6 +85,7 @@ func (s *Store) Push(b bpv7.Bundle) error {
 
 		return s.bh.Insert(bi.Id, bi)
 	} else if bi.Fragmented {
+		verifPoint("push:after-query", bi.Id)
 		if !biStore.Fragmented {
 			log.WithFields(log.Fields{
 				"bundle": b.ID().String(),
@@ -93,7 +94,6 @@ func (s *Store) Push(b bpv7.Bundle) error {
 		}
 
 		knownFragment := false
-		verifPoint("push:after-query", bi.Id)
 		compPart := bi.Parts[0]
 		for _, part := range biStore.Parts {
 			if part.FragmentOffset == compPart.FragmentOffset &&
